@@ -266,6 +266,152 @@ def getcmd_sites(db, rep):
 
 
 
+class SigchldHooks(QHooks):
+    """spawn.c sigchld(): several children have exited by the time the handler runs (SIGCHLD is not queued)"""
+    def __init__(self):
+        self.ends = []
+
+    def tracked_global(self, path):
+        return True
+
+    def precise_arith(self, path):
+        return True
+
+    def prim_wait_nohang(self, E, x, args):
+        k = next(iter(E.get('$k') or [0]))
+        wp = next(iter(args[0])) if args[0] is not TOP and len(args[0]) == 1 else None
+        script = [(11, 0), (12, 256), (0, 0)]
+        if k >= len(script):
+            return [Outcome(ret=fs(0))]
+        pid, w = script[k]
+        sets = {'$k': fs(k + 1)}
+        if pid and isinstance(wp, tuple):
+            sets[wp[1]] = fs(w)
+        return [Outcome(ret=fs(pid), sets=sets, log='wait_nohang() -> %d' % pid)]
+
+    def prim_close(self, E, x, args):
+        v = next(iter(args[0])) if args[0] is not TOP and len(args[0]) == 1 else None
+        E.set('$closed', fs(tuple(next(iter(E.get('$closed') or [()]))) + (v,)))
+        return [Outcome(ret=fs(0))]
+
+    def on_return(self, E, fn, val):
+        if fn.name == 'sigchld':
+            g = lambda p: (next(iter(E.get(p))) if E.get(p) not in (None, TOP) and len(E.get(p)) == 1 else None)
+            self.ends.append(([(g('D[%d].pid' % i), g('D[%d].wstat' % i), g('D[%d].fdout' % i)) for i in range(3)], tuple(next(iter(E.get('$closed') or [()]))), E.trace.list()))
+
+
+def sigchld_sites(db, rep):
+    prog = db.program('qmail-rspawn')
+    fn = prog.fn('sigchld', 'spawn.c')
+    H = SigchldHooks()
+    e = Engine(db, prog, H, max_states=60000)
+    st = {'G:auto_spawn': fs(3), 'G:d': fs(('&', 'D[0]'))}
+    for i, (used, pid, fdout) in enumerate(((1, 11, 7), (1, 12, 8), (1, 13, 9))):
+        st.update({'D[%d].used' % i: fs(used), 'D[%d].pid' % i: fs(pid), 'D[%d].fdout' % i: fs(fdout), 'D[%d].wstat' % i: fs(-7)})
+    e.run(fn, st)
+    rep.count_states(e.states, e.transitions)
+    if len(H.ends) != 1:
+        raise AnalysisBroken('spawn.c sigchld: %d ends for a scripted sequence of exited children' % len(H.ends))
+    slots, closed, tr = H.ends[0]
+    ok = slots[0][0] == 0 and slots[1][0] == 0 and slots[0][1] == 0 and slots[1][1] == 256 and slots[2][0] == 13 and sorted(closed) == [7, 8]
+    return {'sigchld:every-exited-child-is-reaped-in-one-run-of-the-handler': (ok, 'spawn.c:sigchld',
+            'children 11 and 12 have exited (13 is running): after the handler the slots are (pid, status, write end) %s and the descriptors closed are %s; documented: both reaped, their write ends closed - a child left unreaped keeps its pipe open and its delivery is never reported' % (slots, list(closed)), tr if not ok else [])}
+
+
+class FdHooks(QHooks):
+    """the child side of spawn() with a concrete descriptor table: fd -> what it refers to"""
+    def __init__(self):
+        self.execs = []
+
+    def tracked_global(self, path):
+        return True
+
+    def precise_arith(self, path):
+        return True
+
+    def tab(self, E):
+        return dict(next(iter(E.get('$fds'))))
+
+    def settab(self, E, t):
+        E.set('$fds', fs(tuple(sorted(t.items()))))
+
+    def prim_fork(self, E, x, args):
+        return [Outcome(ret=fs(0))]
+
+    def prim_fd_copy(self, E, x, args):
+        to, frm = (next(iter(a)) if a is not TOP and len(a) == 1 else None for a in args[:2])
+        t = self.tab(E)
+        if to == frm:
+            return [Outcome(ret=fs(0))]
+        if frm not in t:
+            return [Outcome(ret=fs(-1))]
+        t[to] = t[frm]
+        self.settab(E, t)
+        return [Outcome(ret=fs(0))]
+
+    def prim_fd_move(self, E, x, args):
+        to, frm = (next(iter(a)) if a is not TOP and len(a) == 1 else None for a in args[:2])
+        t = self.tab(E)
+        if to == frm:
+            return [Outcome(ret=fs(0))]
+        if frm not in t:
+            return [Outcome(ret=fs(-1))]
+        t[to] = t.pop(frm)
+        self.settab(E, t)
+        return [Outcome(ret=fs(0))]
+
+    def prim_dup2(self, E, x, args):
+        frm, to = (next(iter(a)) if a is not TOP and len(a) == 1 else None for a in args[:2])
+        t = self.tab(E)
+        if frm not in t:
+            return [Outcome(ret=fs(-1))]
+        t[to] = t[frm]
+        self.settab(E, t)
+        return [Outcome(ret=fs(to))]
+
+    def prim_close(self, E, x, args):
+        v = next(iter(args[0])) if args[0] is not TOP and len(args[0]) == 1 else None
+        t = self.tab(E)
+        t.pop(v, None)
+        self.settab(E, t)
+        return [Outcome(ret=fs(0))]
+
+    def _exec(self, E, x, args):
+        self.execs.append((self.tab(E), E.trace.list()))
+        return 'noreturn'
+
+    prim_execvp = prim_execv = prim_execve = _exec
+
+    def _n(self, E, x, args):
+        return [Outcome(ret=TOP)]
+
+    prim_setup_qrargs = prim_sig_pipedefault = prim_sig_childdefault = prim_sig_childunblock = _n
+
+    def prim__exit(self, E, x, args):
+        return 'noreturn'
+
+
+def child_fd_sites(db, rep):
+    """qmail-rspawn spawn(): the delivery program runs with the message on 0 and the per-delivery report pipe on 1 AND 2;
+    nothing of the spawner's own channel to qmail-send (its descriptor 1) is left to it"""
+    prog = db.program('qmail-rspawn')
+    fn = prog.fn('spawn', 'qmail-rspawn.c')
+    H = FdHooks()
+    e = Engine(db, prog, H, max_states=60000)
+    fid = e.frame_id(fn)
+    st = {'%s::%s' % (fid, fn.params[0]): fs(5), '%s::%s' % (fid, fn.params[1]): fs(8), '%s::%s' % (fid, fn.params[4]): fs(1),
+          '$fds': fs(tuple(sorted({0: 'commands-from-qmail-send', 1: 'reports-to-qmail-send', 2: 'log', 5: 'message', 7: 'pipe-read-end', 8: 'report-pipe'}.items())))}
+    e.run(fn, st)
+    rep.count_states(e.states, e.transitions)
+    if not H.execs:
+        raise AnalysisBroken('qmail-rspawn spawn(): exec not reached in the child')
+    bad = None
+    for t, tr in H.execs:
+        if not (t.get(0) == 'message' and t.get(1) == 'report-pipe' and t.get(2) == 'report-pipe') or 'reports-to-qmail-send' in [v for k, v in t.items() if k in (0, 1, 2)]:
+            bad = bad or ('the delivery program is started with descriptors 0, 1, 2 = %s, %s, %s; documented: message, report pipe, report pipe - its error output must not reach the spawner\'s report channel, where it would be parsed as delivery reports' % (t.get(0), t.get(1), t.get(2)), tr)
+    return {'rspawn-child:stdin=message,stdout=stderr=the-delivery-report-pipe': (bad is None, 'qmail-rspawn.c:spawn', bad[0] if bad else '%d exec(s)' % len(H.execs), bad[1] if bad else [])}
+
+
 def run(ctx):
     db, rep = ctx.db, ctx.report
     prog = db.program('qmail-rspawn')
@@ -275,6 +421,10 @@ def run(ctx):
     for inst, (ok, where, detail, path) in sorted(H.sites.items()):
         r3.check(ok, inst, where, detail, path)
     for inst, v in sorted(getcmd_sites(db, rep).items()):
+        r3.check(v[0], inst, v[1], v[2], v[3])
+    for inst, v in sorted(sigchld_sites(db, rep).items()):
+        r3.check(v[0], inst, v[1], v[2], v[3])
+    for inst, v in sorted(child_fd_sites(db, rep).items()):
         r3.check(v[0], inst, v[1], v[2], v[3])
     r3.note(messid_lengths_explored=LENS, abstract_states=total_states)
 
